@@ -35,12 +35,12 @@ for key in sorted(groups, key=pos):
     rows.append(f"| {', '.join(g['props'])} | {g['status']} | {('`'+g['commit']+'` '+subj) if g['commit'] else '—'} | {what} | {g['n']} |")
 put('FINDINGS', '\n'.join(rows))
 
-# ---- seeded changes (round 1: seeded/<id>/meta.json, round 2: seeded/<id>/round2/meta.json)
+# ---- seeded changes (round 1: seeded/<id>/meta.json, round 2: seeded/<id>/round2/meta.json, round 3: seeded/<id>/round3/meta.json)
 rows = ['| property | round | # | files touched | own check, quick tier | other checks that also fire |', '|---|---|---|---|---|---|']
 tot = det = 0
-per_round = {1: [0, 0], 2: [0, 0]}
+per_round = {1: [0, 0], 2: [0, 0], 3: [0, 0]}
 for pid in sorted(os.listdir('/verif/seeded')):
-    for rnd, mp in ((1, f'/verif/seeded/{pid}/meta.json'), (2, f'/verif/seeded/{pid}/round2/meta.json')):
+    for rnd, mp in ((1, f'/verif/seeded/{pid}/meta.json'), (2, f'/verif/seeded/{pid}/round2/meta.json'), (3, f'/verif/seeded/{pid}/round3/meta.json')):
         if not os.path.exists(mp): continue
         m = json.load(open(mp))
         for mu in m['mutations']:
@@ -57,7 +57,7 @@ for pid in sorted(os.listdir('/verif/seeded')):
                 if others: det += 1; per_round[rnd][0] += 1
             rows.append(f"| {pid} | {rnd} | {mu['n']} | {', '.join('`'+f+'`' for f in mu.get('files', []))} | {cell} | {', '.join(others) or '—'} |")
 rows.append('')
-rows.append(f'{det} of {tot} seeded changes are detected by the final checks (round 1: {per_round[1][0]} of {per_round[1][1]}, round 2: {per_round[2][0]} of {per_round[2][1]}).')
+rows.append(f'{det} of {tot} seeded changes are detected by the final checks (round 1: {per_round[1][0]} of {per_round[1][1]}, round 2: {per_round[2][0]} of {per_round[2][1]}, round 3: {per_round[3][0]} of {per_round[3][1]}).')
 put('SEEDED', '\n'.join(rows))
 # ---- costs
 tp = '/verif/timings.json'
